@@ -95,6 +95,22 @@ pub fn check_unary(rope: &Rope<'_>, s: &str) -> Result<(), String> {
   for c in ['\n', 'a', 'é', 'b', '😀'] {
     ck!(format!("ends_with({c:?})"), rope.ends_with(c), s.ends_with(c), s);
   }
+  // the last character itself, and characters that merely share low bits / a byte with it
+  if let Some(last) = s.chars().last() {
+    let mut probes = vec![last];
+    let cp = last as u32;
+    for k in [0x100u32, 0x3000, 0x1f600 & !0xff] {
+      if let Some(c) = char::from_u32((cp & 0xff) | k) {
+        probes.push(c);
+      }
+    }
+    if let Some(b) = s.as_bytes().last() {
+      probes.push(*b as char);
+    }
+    for c in probes {
+      ck!(format!("ends_with({c:?})"), rope.ends_with(c), s.ends_with(c), s);
+    }
+  }
   ck!("== &str (equal)", *rope == s, true, s);
   ck!("== str (equal)", *rope == *s, true, s);
   ck!("== Rope::from(str)", *rope == Rope::from(s), true, s);
